@@ -147,7 +147,7 @@ def r8_layering(ctx, cfg):
     """who may open, commit or bypass a transaction"""
     F = cfg.facts
     R = "C01.R8"
-    auto = {"app::App::" + n for n in transactional_entries(cfg)}
+    auto = {"app::App::" + n for n in transactional_entries(cfg)} | ({EXECUTOR_EXECUTE} if executor_execute_is_entry(cfg) else set())
     q.who_may_call(ctx, R, F, TRANSACTIONAL, {"app::App::execute_multi", "app::App::wasm_sudo", "app::App::sudo", "wasm::WasmKeeper::execute_submsg",
                                               "wasm::WasmKeeper::with_storage"} | auto, "a new transaction boundary needs a decision",
                    accept=lambda c: _well_formed_boundary(cfg, c))
@@ -198,7 +198,7 @@ def r1_inventory(ctx, cfg):
                 args = P.call_args(g, t)
                 if args and is_param(args[0], "self") and not t["callee"].get("trait", "").startswith("std::"):
                     self_calls.append(t["callee"]["key"])
-        ctx.ob("C01.R1", key, "wrapper-only-execute_multi", self_calls == ["app::App::execute_multi"],
+        ctx.ob("C01.R1", key, "wrapper-only-execute_multi", self_calls == ["app::App::execute_multi"] or (not self_calls and executor_execute_is_entry(cfg)),
                "Executor::execute for App must only call execute_multi on self, found %s" % self_calls, fn=f,
                sample="calls on self: %s" % self_calls)
     # code-registry methods: no storage-typed argument in any call they make, and no use of App.storage
@@ -297,10 +297,18 @@ def _is_app_storage(o):
 
 
 # ------------------------------------------------------------------------- R2
+EXECUTOR_EXECUTE = "<app::App as executor::Executor>::execute"
+
+
+def executor_execute_is_entry(cfg):
+    """`<App as Executor>::execute` written as a transactional entry point of its own (one message in one transaction) instead of
+    as a wrapper of execute_multi: it is then held to the obligations of C01.R2 like the others"""
+    return bool(q.lexical_calls(cfg.facts, EXECUTOR_EXECUTE, TRANSACTIONAL))
+
+
 def r2_handoff(ctx, cfg):
     F, P = cfg.facts, cfg.prov
-    for name in transactional_entries(cfg):
-        key = "app::App::" + name
+    for key in ["app::App::" + name for name in transactional_entries(cfg)] + ([EXECUTOR_EXECUTE] if executor_execute_is_entry(cfg) else []):
         f = ctx.need_fn("C01.R2", key)
         if f is None:
             continue
